@@ -12,10 +12,20 @@ import (
 
 // runProgram evaluates one position-less AST in a fresh world and returns the canonical
 // line the model prints for op P: "<outcome>| <trace>" plus the raw outcome.
+// sharedWorld, when non-nil, is reused by runProgram (for programs that do not define
+// anything: pure builtin calls); its trace is cleared before every program.
+var sharedWorld *h.World
+
 func runProgram(ast types.MalType) (string, h.Outcome, *h.World) {
-	w, err := h.NewWorld()
-	if err != nil {
-		panic(err)
+	w := sharedWorld
+	if w == nil {
+		var err error
+		w, err = h.NewWorld()
+		if err != nil {
+			panic(err)
+		}
+	} else {
+		w.Trace = nil
 	}
 	done := make(chan h.Outcome, 1)
 	go func() { done <- w.Eval(context.Background(), ast) }()
